@@ -231,7 +231,32 @@ def run(ctx):
         q4 = [G[1 + 2 * p, 1] for p in range(4)]
         return q1, q2, q3, q4
 
-    (stA, GA), _ = run_gg(x1, x2, False, True)
+    (stA, GA), condsA = run_gg(x1, x2, False, True)
+    # identity shortcut: it must be taken only for a pair whose NORM is at most machine epsilon (the confirmed threshold).  A test of
+    # the squared norm (or of any other power) against the same constant treats every pair up to eps^(1/k) as zero: the rotation is
+    # skipped and the sub-diagonal entry survives the QR sweep.
+    import sys as _sys
+    okt, whyt = False, "ggivens has no identity shortcut for a (numerically) zero pair"
+    if condsA:
+        parts = cond_parts(condsA[0])
+        tnorm = sum((v * v for v in x1 + x2), Poly.const(0)).sqrt()
+        if parts and parts[0] in ("le", "lt") and P(parts[2]).is_const():
+            c = float(P(parts[2]).const_value())
+            eff = None
+            sumsq = sum((v * v for v in x1 + x2), Poly.const(0))
+            for e in (1, 2, 3, 4):
+                cand = (sumsq ** (e // 2)) * (tnorm if e % 2 else Poly.const(1))
+                if P(parts[1]).same(tnorm ** e) or P(parts[1]).same(cand):
+                    eff = c ** (1.0 / e) if c > 0 else 0.0
+            if eff is None:
+                okt, whyt = False, f"the shortcut test concerns {short(parts[1])}, not (a power of) the norm of the stacked pair"
+            elif eff > _sys.float_info.epsilon * (1 + 1e-9):
+                okt, whyt = False, (f"the identity shortcut is taken for every pair of norm <= {eff:.3g} (confirmed threshold: machine "
+                                    f"epsilon {_sys.float_info.epsilon:.3g}): small but representable pairs are not rotated")
+            else:
+                okt, whyt = True, ""
+    ctx.ob("C16.D2.ggivens", "ggivens zero-pair threshold", okt, whyt, where=f_gg.where, construct="ggivens: zero-pair threshold",
+           loc=f_gg.loc())
     (stB, GB), _ = run_gg(x2, x1, False, False)
     (stI, GI), _ = run_gg(x1, x2, True, False)
     ok, why = stA == "ok" and stB == "ok", "ggivens fails"
